@@ -4,11 +4,12 @@
 -/
 import MantraDex.Model.System
 import MantraDex.Proofs.NumLemmas
+import MantraDex.Proofs.FarmHandlerLemmas
 
 set_option linter.unusedSimpArgs false
 
 namespace MantraDex.C11
-open MantraDex
+open MantraDex MantraDex.FH
 
 /-- `assert_farm_asset` (after the F-05 fix): the funds are exactly the reward, plus the fee coin
     when a non-zero fee is due in another denom; in the same denom, one coin of reward + fee -/
@@ -18,7 +19,39 @@ theorem farm_asset_exact {funds : List Coin} {fee asset : Coin}
     (fee.denom ≠ asset.denom ∧ fee.amount ≠ 0 → funds.length = 2 ∧
         ∃ c ∈ funds, c.denom = asset.denom ∧ c.amount = asset.amount) ∧
     (fee.denom = asset.denom → funds = [⟨asset.denom, asset.amount + fee.amount⟩]) := by
-  sorry
+  unfold assertFarmAsset at h
+  rcases hfind : funds.find? (fun x => x.denom == asset.denom) with _ | sent
+  · simp [hfind, bind, Except.bind] at h
+  · have hd : sent.denom = asset.denom := by
+      have := List.find?_some hfind; simpa using this
+    simp only [hfind, bind_ok, pure_ok] at h
+    obtain ⟨sent', hs, h⟩ := h
+    subst hs
+    by_cases hne : fee.denom = asset.denom
+    · have hb : (fee.denom != asset.denom) = false := by simp [hne]
+      simp only [hb, Bool.false_eq_true, if_false, bind_ok, ckAdd_ok] at h
+      obtain ⟨t, ⟨_, rfl⟩, h⟩ := h
+      by_cases hamt : asset.amount + fee.amount = sent'.amount
+      · by_cases hlen : funds.length = 1
+        · refine ⟨fun hh => absurd hne hh.1, fun hh => absurd hne hh.1, fun _ => ?_⟩
+          rw [find_single hlen hfind]
+          cases sent'; simp_all
+        · simp [hamt, hlen] at h
+      · simp [hamt, bind, Except.bind] at h
+    · have hb : (fee.denom != asset.denom) = true := by simp [hne]
+      simp only [hb, if_true] at h
+      by_cases hamt : sent'.amount = asset.amount
+      · by_cases hlen : funds.length = if fee.amount = 0 then 1 else 2
+        · refine ⟨?_, ?_, fun he => absurd he hne⟩
+          · rintro ⟨_, h0⟩
+            rw [if_pos h0] at hlen
+            rw [find_single hlen hfind]
+            cases sent'; cases asset; simp_all
+          · rintro ⟨_, h0⟩
+            rw [if_neg h0] at hlen
+            exact ⟨hlen, sent', List.mem_of_find?_eq_some hfind, hd, hamt⟩
+        · simp [hamt, hlen] at h
+      · simp [hamt, bind, Except.bind] at h
 
 /-- the fee messages: any overpayment of a fee paid in another denom is refunded to the sender,
     exactly the fee goes to the fee collector -/
@@ -30,19 +63,116 @@ theorem farm_fee_messages {cfg : FmConfig} {sender : Addr} {funds : List Coin} {
       msgs = (if paid = cfg.createFarmFee.amount ∨ cfg.createFarmFee.denom == asset.denom then []
               else [Msg.bankSend sender [⟨cfg.createFarmFee.denom, paid - cfg.createFarmFee.amount⟩]]) ++
              [Msg.bankSend cfg.feeCollector [cfg.createFarmFee]] := by
-  sorry
+  unfold processFarmCreationFee at h
+  rcases hfind : funds.find? (fun x => x.denom == cfg.createFarmFee.denom) with _ | c
+  · simp [hfind, bind, Except.bind] at h
+  · have hpos : cfg.createFarmFee.amount > 0 := Nat.pos_of_ne_zero hne
+    simp only [hfind, bind_ok, pure_ok, hpos, if_true] at h
+    obtain ⟨paid, rfl, h⟩ := h
+    refine ⟨c.amount, by rw [hfind]; rfl, ?_⟩
+    by_cases h1 : c.amount = cfg.createFarmFee.amount
+    · simp only [h1, if_true, pure_ok, bind_ok] at h
+      obtain ⟨_, rfl, rfl⟩ := h
+      simp [h1]
+    · simp only [h1, if_false] at h
+      by_cases h2 : c.amount < cfg.createFarmFee.amount
+      · simp [h2, bind, Except.bind] at h
+      · simp only [h2, if_false] at h
+        refine ⟨by omega, ?_⟩
+        by_cases h3 : (cfg.createFarmFee.denom == asset.denom) = true
+        · simp only [h3, if_true, bind_ok, ckAdd_ok] at h
+          obtain ⟨t, ⟨_, rfl⟩, h⟩ := h
+          split at h
+          · simp [bind, Except.bind] at h
+          · simp only [pure_ok, bind_ok] at h
+            obtain ⟨_, rfl, rfl⟩ := h
+            simp [h3]
+        · simp only [h3, if_false, pure_ok, bind_ok] at h
+          obtain ⟨_, rfl, rfl⟩ := h
+          simp [h1, h3]
 
 /-- what an accepted `create_farm` records: the full reward as the budget, nothing claimed, the
-    sender as owner, emission rate = ⌊reward / (end − start)⌋, start > current epoch, within the buffer -/
-theorem create_farm_records {s s' : FmState} {env : FmEnv} {sender : Addr} {funds : List Coin}
-    {p : FarmParams} {r : Response} (h : createFarm s env sender funds p = .ok (s', r)) :
+    sender as owner, emission rate = ⌊reward / (end − start)⌋, start > current epoch, within the buffer.
+
+    PARTIAL: the original statement (without `hreuse`) is false.  `create_farm` first closes the
+    expired farms of the LP denom and only then checks that the identifier is free, so the new farm
+    may re-use the identifier of a farm that expired and is closed by the very same call; then
+    `∀ g ∈ s.farms, g.id ≠ f.id` fails (counterexample: see the comment after this theorem).
+    `hreuse` excludes exactly that: no expired farm of this LP denom carries the new identifier. -/
+theorem create_farm_records_partial {s s' : FmState} {env : FmEnv} {sender : Addr} {funds : List Coin}
+    {p : FarmParams} {r : Response}
+    (hreuse : ∀ g ∈ s.farms, g.lpDenom = p.lpDenom → isFarmExpiredOrFalse s env g = .ok true →
+      g.id ≠ (match p.farmId with
+        | some i => C.EXPLICIT_FARM_ID_PREFIX ++ i
+        | none => C.AUTO_FARM_ID_PREFIX ++ toString (s.farmCounter + 1)))
+    (h : createFarm s env sender funds p = .ok (s', r)) :
     ∃ f cur, f ∈ s'.farms ∧ (∀ g ∈ s.farms, g.id ≠ f.id) ∧ fmCurrentEpoch s env = .ok cur ∧
       f.owner = sender ∧ f.lpDenom = p.lpDenom ∧ f.assetDenom = p.asset.denom ∧
       f.assetAmount = p.asset.amount ∧ f.claimed = 0 ∧ C.MIN_FARM_AMOUNT ≤ f.assetAmount ∧
       cur < f.startEpoch ∧ f.startEpoch < f.endEpoch ∧ f.startEpoch ≤ cur + s.config.maxFarmEpochBuffer ∧
       f.emissionRate = f.assetAmount / (f.endEpoch - f.startEpoch) ∧
       assertFarmAsset funds s.config.createFarmFee p.asset = .ok () := by
-  sorry
+  obtain ⟨cur, flags, feeMsgs, start, end_, rate, hcur, hflags, _, hmin, _, hassert, hval, hrate, hany,
+    rfl, _⟩ := createFarm_inv h
+  obtain ⟨h1, h2, h3⟩ := validateFarmEpochs_ok hval
+  obtain ⟨_, hfarms, _, _, hctr⟩ := closeFarms_spec s (cfExpired s p flags)
+  simp only [divFloorFrac_ok, Nat.mul_one] at hrate
+  refine ⟨{
+      id := (cfIdState (closeFarms s (cfExpired s p flags)).1 p).1, owner := sender,
+      lpDenom := p.lpDenom, assetDenom := p.asset.denom, assetAmount := p.asset.amount,
+      claimed := 0, emissionRate := rate, startEpoch := start, endEpoch := end_ }, cur, ?_, ?_, hcur, rfl, rfl,
+    rfl, rfl, rfl, hmin, h1, h2, h3, hrate.2.2, hassert⟩
+  · unfold FmState.saveFarm
+    rw [if_neg (by rw [hany]; simp)]
+    exact (insertFarmSorted_perm _ _).mem_iff.2 (List.mem_cons_self)
+  · intro g hg
+    simp only
+    by_cases hk : ((cfExpired s p flags).any (·.id == g.id)) = true
+    · obtain ⟨g', hg', hid⟩ := List.any_eq_true.1 hk
+      have hid' : g'.id = g.id := by simpa using hid
+      unfold cfExpired at hg'
+      simp only [List.mem_map, List.mem_filter] at hg'
+      obtain ⟨⟨g'', b⟩, ⟨hz, hb⟩, rfl⟩ := hg'
+      simp only at hb; subst hb
+      have hexp := (mapM_ok_zip _ _ _ hflags).2 _ hz
+      have hmem : g'' ∈ cfFarms s p := (List.of_mem_zip hz).1
+      unfold cfFarms FmState.farmsByLp at hmem
+      have hmem' := List.mem_of_mem_take hmem
+      simp only [List.mem_filter, beq_iff_eq] at hmem'
+      have := hreuse g'' hmem'.1 hmem'.2 hexp
+      rw [cfIdState_fst, hctr, ← hid']
+      exact this
+    · have hg1 : g ∈ (cfIdState (closeFarms s (cfExpired s p flags)).1 p).2.farms := by
+        rw [cfIdState_farms, hfarms]
+        simp only [List.mem_filter]
+        exact ⟨hg, by simpa using hk⟩
+      have := List.any_eq_false.1 hany g hg1
+      simpa using this
+
+/-
+  Counterexample to the unrestricted `create_farm_records` (checked with `#eval`):
+
+    def lp : Denom := "factory/pm/p.1.LP"
+    def cfg0 : FmConfig := {
+      feeCollector := "fc", epochManager := "em", poolManager := "pm",
+      createFarmFee := ⟨"uom", 0⟩, maxConcurrentFarms := 5, maxFarmEpochBuffer := 14,
+      minUnlocking := 86400, maxUnlocking := 31556926, farmExpirationTime := 2629746,
+      emergencyUnlockPenalty := 0 }
+    def oldFarm : Farm := {
+      id := "m-foo", owner := "alice", lpDenom := lp, assetDenom := "uusd",
+      assetAmount := 1000, claimed := 1000, emissionRate := 100, startEpoch := 1, endEpoch := 2 }
+    def s0 : FmState := { config := cfg0, farms := [oldFarm], owner := { owner := some "admin" } }
+    def env0 : FmEnv := {
+      self := "fm", nowNs := 86400 * 10 * 1000000000, validAddr := fun _ => true,
+      emConfig := fun a => if a = "em" then some ⟨86400, 0⟩ else none }
+    def p0 : FarmParams := {
+      lpDenom := lp, startEpoch := none, endEpoch := none, asset := ⟨"uusd", 5000⟩, farmId := some "foo" }
+
+    #eval isFarmExpiredOrFalse s0 env0 oldFarm                      -- Except.ok true
+    #eval (createFarm s0 env0 "bob" [⟨"uusd", 5000⟩] p0).toOption.map (·.1.farms.map (·.id))
+                                                                    -- some ["m-foo"]
+  The only farm of the new state has id "m-foo", and `oldFarm ∈ s0.farms` has the same id.
+-/
 
 /-- expanding adds exactly the attached amount (a multiple of the emission rate) and extends the
     end by amount / rate epochs; only before the farm ended -/
@@ -55,7 +185,42 @@ theorem expand_farm_exact {s s' : FmState} {env : FmEnv} {sender : Addr} {funds 
       s'.getFarm fid = .ok f' ∧ f'.assetAmount = f.assetAmount + p.asset.amount ∧
       f'.endEpoch = f.endEpoch + p.asset.amount / f.emissionRate ∧ f'.claimed = f.claimed ∧
       f'.owner = f.owner ∧ f'.emissionRate = f.emissionRate ∧ f'.startEpoch = f.startEpoch ∧ r.msgs = [] := by
-  sorry
+  unfold expandFarm at h
+  simp only [hid, error_bind, ite_err_ok, bind_ok, pure_ok, fit_ok, ckAdd_ok] at h
+  obtain ⟨fid', hfid', f', hf', _, cur, hcur, hlt, ex, _, _, _, reward, hone, hrw, hden, hrate, hmod, total,
+    ⟨_, rfl⟩, extra, ⟨_, rfl⟩, newEnd, ⟨_, rfl⟩, h⟩ := h
+  subst hfid'
+  rw [hf] at hf'
+  cases hf'
+  simp only [Prod.mk.injEq] at h
+  obtain ⟨rfl, rfl⟩ := h
+  have hrw' : reward = p.asset := by simpa using hrw
+  subst hrw'
+  have hden' : f.assetDenom = p.asset.denom := by simpa using hden
+  have hfunds : funds = [p.asset] := by
+    unfold oneCoin at hone
+    split at hone
+    · split at hone
+      · simp at hone
+      · simp only [Except.ok.injEq] at hone; rw [hone]
+    · simp at hone
+  unfold FmState.getFarm at hf
+  split at hf
+  next f0 hfind =>
+    simp only [Except.ok.injEq] at hf; subst hf
+    have hfid : f0.id = fid' := by simpa using List.find?_some hfind
+    have hmem := List.mem_of_find?_eq_some hfind
+    subst hfid
+    refine ⟨cur, { f0 with
+        assetAmount := f0.assetAmount + p.asset.amount,
+        endEpoch := f0.endEpoch + p.asset.amount / f0.emissionRate }, hfunds, hden'.symm, hrate, by simpa using hmod, hcur, Nat.lt_of_not_le hlt, ?_,
+      rfl, rfl, rfl, rfl, rfl, rfl, rfl⟩
+    unfold FmState.getFarm FmState.saveFarm
+    have hany : (s.farms.any (·.id == f0.id)) = true := List.any_eq_true.2 ⟨f0, hmem, by simp⟩
+    simp only [hany, if_true]
+    rw [find_map_replace (k := Farm.id) s.farms f0 _ ?_ hfind]
+    rfl
+  next => cases hf
 
 /-- closing refunds exactly the unclaimed remainder to the farm's owner and to nobody else -/
 theorem close_farms_refunds (s : FmState) (fs : List Farm) :
@@ -63,7 +228,8 @@ theorem close_farms_refunds (s : FmState) (fs : List Farm) :
       (fs.filter (fun f => f.assetAmount - f.claimed > 0)).map
         (fun f => Msg.bankSend f.owner [⟨f.assetDenom, f.assetAmount - f.claimed⟩]) ∧
     (closeFarms s fs).1.farms = s.farms.filter (fun g => !(fs.any (·.id == g.id))) := by
-  sorry
+  obtain ⟨h1, h2, _⟩ := closeFarms_spec s fs
+  exact ⟨h1, h2⟩
 
 /-- the number of farms per LP token never exceeds the configured maximum (≤ 100, see F-12) -/
 theorem farms_per_lp_le_max_partial {s s' : FmState} {env : FmEnv} {sender : Addr} {funds : List Coin}
@@ -72,12 +238,53 @@ theorem farms_per_lp_le_max_partial {s s' : FmState} {env : FmEnv} {sender : Add
     (hinv : (s.farms.filter (·.lpDenom == p.lpDenom)).length ≤ s.config.maxConcurrentFarms)
     (h : createFarm s env sender funds p = .ok (s', r)) :
     (s'.farms.filter (·.lpDenom == p.lpDenom)).length ≤ s.config.maxConcurrentFarms := by
-  sorry
+  obtain ⟨cur, flags, feeMsgs, start, end_, rate, hcur, hflags, hlive, _, _, _, _, _, hany,
+    rfl, _⟩ := createFarm_inv h
+  obtain ⟨_, hfarms, _, _, _⟩ := closeFarms_spec s (cfExpired s p flags)
+  obtain ⟨hlen, hz⟩ := mapM_ok_zip _ _ _ hflags
+  have hall : cfFarms s p = s.farms.filter (·.lpDenom == p.lpDenom) := by
+    unfold cfFarms FmState.farmsByLp
+    apply List.take_of_length_le
+    rw [Nat.min_eq_left hmax]; exact hinv
+  unfold FmState.saveFarm
+  rw [if_neg (by rw [hany]; simp)]
+  rw [((insertFarmSorted_perm _ _).filter _).length_eq, cfIdState_farms, hfarms, List.filter_cons]
+  simp only [beq_self_eq_true, if_true, List.length_cons, List.filter_filter]
+  have hle := zip_filter_len (fun g => !((cfExpired s p flags).any (·.id == g.id))) (cfFarms s p) flags hlen
+    (by
+      intro x hx hq
+      cases hb : x.2 with
+      | false => rfl
+      | true =>
+        exfalso
+        have : x.1 ∈ cfExpired s p flags := by
+          unfold cfExpired
+          simp only [List.mem_map, List.mem_filter]
+          exact ⟨x, ⟨hx, hb⟩, rfl⟩
+        have hh : ((cfExpired s p flags).any (·.id == x.1.id)) = true :=
+          List.any_eq_true.2 ⟨x.1, this, by simp⟩
+        simp [hh] at hq)
+  have heq : (s.farms.filter (fun a => (a.lpDenom == p.lpDenom && !((cfExpired s p flags).any (·.id == a.id))))).length
+      = ((cfFarms s p).filter (fun g => !((cfExpired s p flags).any (·.id == g.id)))).length := by
+    rw [hall, List.filter_filter]
+    congr 1
+    apply List.filter_congr
+    intro a _; rw [Bool.and_comm]
+  rw [heq]
+  unfold cfLive at hlive
+  omega
 
 /-- the limit can only be raised -/
 theorem max_farms_never_decreases {s s' : FmState} {env : FmEnv} {sender : Addr} {u : FmConfigUpdate}
     {r : Response} (h : fmUpdateConfig s env sender u = .ok (s', r)) :
     s.config.maxConcurrentFarms ≤ s'.config.maxConcurrentFarms := by
-  sorry
+  unfold fmUpdateConfig at h
+  simp only [bind_ok, pure_ok] at h
+  obtain ⟨_, _, fc, _, em, _, pm, _, h⟩ := h
+  iterate 10 (all_goals (try (split at h <;> try simp only [pure_bind, error_bind, reduceCtorEq] at h)))
+  all_goals simp only [pure_ok, Prod.mk.injEq] at h
+  all_goals obtain ⟨rfl, _⟩ := h
+  all_goals simp only
+  all_goals first | exact Nat.le_refl _ | assumption
 
 end MantraDex.C11
